@@ -38,10 +38,16 @@ ASSUMPTIONS = [
     "detailed_results() and the joined `analysis` string are order-dependent presentation and "
     "are not compared (the statement speaks of the set of findings)",
     "a query that raises must raise the same exception type every time",
-    "pickles fickling does not accept (parse, interpretation or unparse raises) are outside the "
-    "quantifier; on those, a second has_import/has_call after a failed first one answers False "
-    "instead of raising (observed, see C14)",
+    "pickles fickling cannot even parse are outside the quantifier; pickles it parses but refuses "
+    "to decompile are inside for the repeatability clauses (a query that raises must raise the same "
+    "exception type every time, on either copy); the has_import quirk that once forced them out was "
+    "repaired as FX12",
 ]
+
+# globals no Python source can spell (GLOBAL takes any line): whatever a tree does with them, it
+# does the same thing every time
+ODD_NAMES = (("mod", "class"), ("lambda", "x"), ("a-b", "c"), ("mod", "1abc"), ("pkg.def", "f"))
+
 
 def _mk_decoys():
     out = []
@@ -164,12 +170,19 @@ def check_sequence(data, seq, path):
 
         second = StackedPickle.load(pickle.dumps(None, protocol=2) + data)
         copies = [Pickled.load(data), second[1] if len(second) >= 2 else Pickled.load(data)]
-        # the quantifier is over ACCEPTED pickles: parse, interpret and unparse succeed
-        ast.unparse(Pickled.load(data).ast)
     except RecursionError:
         return None, -1
     except Exception:  # noqa: BLE001
         return None, -1
+    accepted = True
+    try:
+        ast.unparse(Pickled.load(data).ast)
+    except RecursionError:
+        return None, -1
+    except Exception:  # noqa: BLE001
+        # fickling parses the bytes but refuses to decompile them: then it has to refuse every
+        # time (a query that raises must raise the same way when it is asked again)
+        accepted = False
     first = {}
     nfind = 0
     case = {"hex": data.hex(), "seq": [list(x) for x in seq]}
@@ -234,7 +247,7 @@ def check_sequence(data, seq, path):
                 return Failure(case, f"dumps() raised {e!r} after query {i} ({q})"), nfind
             if out != copies[0].dumps() or (len(out) <= len(data) and not data.startswith(out)):
                 return Failure(case, f"dumps() changed after query {i} ({q}) on {data!r}"), nfind
-    return None, nfind
+    return None, (nfind if accepted else -2)
 
 
 def _show(ans):
@@ -358,7 +371,7 @@ def _case_strategy():
 
     # incl. the protocol-5 out-of-band buffer opcodes: whatever a tree does with them, it has to
     # do the same thing every time
-    prof = asm.full_profile(vocab.ASM_GLOBS + vocab.ASM_GLOBS_PY2, buffers=True)
+    prof = asm.full_profile(vocab.ASM_GLOBS + vocab.ASM_GLOBS_PY2 + ODD_NAMES, buffers=True)
     progs = asm.programs(prof, max_len=24).map(lambda p: p.data)
     nat = st.tuples(
         st.one_of(values.plain_values(), values.instance_values()), st.sampled_from(range(6))
@@ -409,7 +422,7 @@ def run_shard(spec, seed):
             res.note(
                 (data.hex(), seq),
                 nt,
-                klass=["accepted" if nfind >= 0 else "parse-refused"],
+                klass=["accepted" if nfind >= 0 else "parse-refused" if nfind == -1 else "decompile-refused"],
                 sample={"hex": data.hex(), "queries": [f"{q}@{w}" for q, w in seq]},
             )
             return f_
